@@ -41,6 +41,11 @@ def mentions_field(p, term, name, depth=0):
 
 def fn(p, suffix):
     c = [x for x in p.all_bodies if x.path.endswith(suffix) and x.path == x.root]
+    if not c:
+        # renamed or moved private helper: found by its role (rules/roles.py)
+        rb = getattr(p, "role_bodies", {}).get(suffix.rsplit("::", 1)[-1])
+        if rb is not None:
+            return rb
     return c[0] if len(c) == 1 else None
 
 
